@@ -724,7 +724,7 @@ def materialise(case: dict, root: str) -> Built:
     labels += ["comp:" + cls["comp"], "auth:" + cls["auth"], "target:" + cls["target"], "type:%d" % cls["image_type"]]
     if cls["fixed_image_type"] is not None and cls["fixed_image_type"] != cls["image_type"]:
         # MC56F81xxx images carry no type word: the database fixes ONE type per family for parsing
-        labels.append("fixed_type_mismatch")
+        labels += ["fixed_type_mismatch", "fixed_type:%d" % cls["fixed_image_type"]]
     return b
 
 
